@@ -675,6 +675,16 @@ func (c *Checker) checkFuncSignature1(node *a.Node, banCPUArchTypes bool) error 
 			}
 		}
 
+		if s := c.structs[t.QID{qqid[0], qqid[1]}]; !s.Classy() && (n.Public() || n.Effect().Coroutine()) {
+			// A non-classy struct has no magic number or coroutine state.
+			return &Error{
+				Err: fmt.Errorf("check: receiver struct for public or coroutine function %s is not classy "+
+					"(it is declared without a question mark)", qqid.Str(c.tm)),
+				Filename: n.Filename(),
+				Line:     n.Line(),
+			}
+		}
+
 		sTyp := a.NewTypeExpr(0, qqid[0], qqid[1], nil, nil, nil)
 		sTyp.AsNode().SetMBounds(bounds{zero, zero})
 		sTyp.AsNode().SetMType(typeExprTypeExpr)
